@@ -708,6 +708,14 @@ class Magnetization(MagicProperties):
     def __init__(self, show=None, size=None, color=None, mode=None, **kwargs):
         super().__init__(show=show, size=size, color=color, mode=mode, **kwargs)
 
+    def as_dict(self, flatten=False, separator="."):
+        """Returns a nested dictionary of all properties, see `MagicProperties.as_dict`.
+        The deprecated `size` alias of `arrow.size` is left out: it can still be set, but
+        must not be re-applied by `update` after (and instead of) `arrow.size`."""
+        dict_ = super().as_dict(flatten=flatten, separator=separator)
+        dict_.pop("size", None)
+        return dict_
+
     @property
     def show(self):
         """If True, show magnetization direction."""
